@@ -71,7 +71,19 @@ def run(ctx):
             nm = t["callee"].get("resolved") or t["callee"]["path"]
             if g in mw.get(nm, set()):
                 wblocks.add(i)
-        ren = [i for i, t in MQ.calls() if (t["callee"].get("resolved") or t["callee"]["path"]).endswith("recreate_variables")]
+        # where the query's variables are renamed: a call that reaches recreate_variables, or the creation / passing of
+        # a closure that does (`terms.into_iter().map(|t| t.recreate_variables(..))`)
+        def renames(path):
+            return path.endswith("recreate_variables") or (path in cg.nodes and any(x.endswith("recreate_variables") for x in cg.reach([path])))
+        ren = []
+        for i, blk in enumerate(MQ.blocks):
+            hit = any(s_["k"] == "assign" and s_["rv"].get("ak") == "closure" and renames(s_["rv"]["closure"]) for s_ in blk["stmts"])
+            t = blk["term"]
+            if t["k"] == "call" and not t["callee"].get("indirect"):
+                nm = t["callee"].get("resolved") or t["callee"].get("path") or ""
+                hit = hit or renames(nm) or any(renames(ca["closure"]) for ca in t["callee"].get("closure_args", []))
+            if hit:
+                ren.append(i)
         ordered = bool(ren) and all(any(cfg.dom(w, r) and w != r for w in wblocks) for r in ren)
         readers = sorted({x[0].split("::")[-1] for x in G[g]})
         ctx.ob("R2", "reset(%s)" % g.split("::")[-1], okmw and ordered, ctx.where(MQ),
